@@ -5,6 +5,7 @@ Cancellable = {"b"}
 MaxGen = 2
 Kinds = {"nosc", "ok"}
 MaxFlips = 0
+Reswap = FALSE
 Mutant = 1
 INIT Init
 NEXT Next
